@@ -353,6 +353,9 @@ func (m *Machine) apiCall(name string, fr *frame, args []Value, call *ssa.CallCo
 		c := m.newCell(m.bigIntType())
 		c.V = BigV{tt.BV2Int(args[0].(*Term))}
 		return PtrV{C: c}, true
+	case "lenOnlySlice":
+		// a slice of which only the (symbolic) length may be observed
+		return SliceV{SymLen: args[0].(*Term)}, true
 	case "param":
 		v, ok := m.Spec.Params[m.str(args[0])]
 		if !ok {
